@@ -35,7 +35,7 @@ class C10(framework.PropertyCheck):
     thorough_cases = 150000
     rule = ('totality: random strings over the language alphabet, grammar-generated texts and their mutations (delete/insert/replace/truncate), '
             'length<=200; literals: integers up to 300 bits in decimal (signed), 0x and 0b, at top level, inside lists, after quote, as @ offset '
-            'and as slice bound; strings over printable characters plus the supported escapes; layouts: blanks, newlines, tabs and ;comments inserted '
+            'and as slice bound; float literals (also without fraction digits) at top level, in lists, after quote; strings over printable characters plus the supported escapes; layouts: blanks, newlines, tabs and ;comments inserted '
             'at token boundaries; trailing garbage after a complete expression; shebang line for program files; texts with macro calls read again after '
             'an evaluation of the same text (the denotation is a function of the text); non-trivial = the text is '
             'accepted and contains a literal, or is rejected after at least one complete token')
@@ -76,6 +76,10 @@ class C10(framework.PropertyCheck):
                 yield {'k': 'reread', 's': rng.choice([f'(when #t {lit})', f'(unless #f {lit} {a})', f'(when {a} {b})', f'(list (when #t {lit}) (unless #f 2))',
                                                       f'(cond [#f 1] [else {lit}])', f"(for/list [e9 '(1 2)] (+ e9 {lit}))", f'(do (inc v9) {a})',
                                                       f'(let ([v9 {lit}]) (when v9 (inc v9)))', f'(+ {lit} 1)', f"'({lit} {a})"])}
+            elif k == 3 and i % 32 == 27:
+                # float literals: digits, a point, any number of fraction digits (also none), optional sign
+                tok = rng.choice(['', '-', '+']) + str(rng.randrange(0, 2000)) + '.' + rng.choice(['', '', '0', '5', '25', '125', '0625', '500'])
+                yield {'k': 'flit', 'tok': tok, 'pos': rng.choice(['top', 'list', 'quote', 'nested'])}
             elif k == 3 and i % 32 == 19:
                 tok, v = g.int_tok()
                 yield {'k': 'evaltop', 'tok': rng.choice([tok, '0', '0x0', '0b000', '#f', '#t', '""', '"s"', 'false', '0.0', '1.5'])}
@@ -105,6 +109,9 @@ class C10(framework.PropertyCheck):
                      'nested': f"(f '(1 ({t})) `(x ,{t}))"}[case['pos']]]
         if k == 'evaltop':
             return [case['tok']]
+        if k == 'flit':
+            t = case['tok']
+            return [{'top': t, 'list': f'(a {t} b)', 'quote': f"'{t}", 'nested': f"(f '(1 ({t})) `(x ,{t}))"}[case['pos']]]
         if k == 'lit':
             t = case['tok']
             return [{'top': t, 'list': f'(a {t} b)', 'quote': f"'{t}", 'offset': f'a@{t}', 'slice': f'a[{t}]', 'slice2': f'a[7:{t}]',
@@ -188,6 +195,15 @@ class C10(framework.PropertyCheck):
                                            ('L', True, (('O', 'quasiquote'), ('L', True, (('Y', 'x', None), ('U', B)))))))}[case['pos']]
             if r != ('ok', want):
                 return {'what': 'boolean literal does not denote its value in this position', 'text': t, 'got': r, 'want': want}
+            return None
+        if k == 'flit':
+            t, r = res[0]
+            Fv = ('F', wire.fbits(float(case['tok'])))
+            want = {'top': Fv, 'list': ('L', True, (('Y', 'a', None), Fv, ('Y', 'b', None))), 'quote': ('L', True, (('O', 'quote'), Fv)),
+                    'nested': ('L', True, (('Y', 'f', None), ('L', True, (('O', 'quote'), ('L', True, (I(1), ('L', True, (Fv,)))))),
+                                           ('L', True, (('O', 'quasiquote'), ('L', True, (('Y', 'x', None), ('U', Fv)))))))}[case['pos']]
+            if r != ('ok', want):
+                return {'what': 'float literal does not denote its value in this position', 'text': t, 'got': r, 'want': want}
             return None
         if k == 'lit':
             t, r = res[0]
